@@ -153,9 +153,9 @@ func (c Int16) Log1pExp(a ConstScalar) Scalar {
     c.Log1p(c)
   } else
   if v <= 33.3 {
-    c.Neg(a)
-    c.Exp(a)
-    c.Add(c, a)
+    // log(1+exp(x)) = x + exp(-x) + O(exp(-2x)); evaluated in one step so
+    // that c may be a
+    c.SetFloat64(v + math.Exp(-v))
   } else {
     c.Set(a)
   }
